@@ -1741,9 +1741,11 @@ class Alias(ObjectAliasMixin):
                 resolved.resolve_target()
             except CyclicAliasError as error:
                 raise CyclicAliasError([self.target_path, *error.chain]) from error
-        self._target = resolved
+        # Registering this alias in its (final) target can fail when the rest of the chain
+        # cannot be followed: do it first, so that the alias is left unresolved in that case.
         if self.parent is not None:
-            self._target.aliases[self.path] = self  # type: ignore[union-attr]
+            resolved.aliases[self.path] = self
+        self._target = resolved
 
     def _update_target_aliases(self) -> None:
         with suppress(AttributeError, AliasResolutionError, CyclicAliasError):
